@@ -11,6 +11,7 @@ package main
 //       calls  F   sorted multiset of method / function names called in the body (List String)
 //       switch F   the case table of the first switch statement: labels ↦ returned expression
 //       src    F   the body, printed by go/printer with comments dropped (String)
+//       casebody F like switch, with the printed body of every clause instead of its return expression
 //
 // The output is compared inside Lean with hand-written expectations (Facts/Expected*.lean)
 // by `decide`/`rfl`, so a changed constant relation, case table or lock skeleton breaks the
@@ -361,7 +362,7 @@ func extractMain(args []string) {
 					fmt.Fprintf(&lean, "def %s : String := \"<missing>\"\n", id)
 				case "calls":
 					fmt.Fprintf(&lean, "def %s : List String := [\"<missing>\"]\n", id)
-				case "switch":
+				case "switch", "casebody":
 					fmt.Fprintf(&lean, "def %s : List (List String × String) := [([\"<missing>\"], \"\")]\n", id)
 				}
 				facts[id] = "<missing>"
@@ -384,6 +385,16 @@ func extractMain(args []string) {
 				}
 				fmt.Fprintf(&lean, "def %s : List (List String × String) := [%s]\n", id, strings.Join(rows, ", "))
 				facts[id] = v
+			case "casebody":
+				// like `switch`, but the second component is the whole clause body (comments dropped)
+				v := switchFact(fset, fd)
+				bodies := c15CaseBodies(fset, fd)
+				var rows []string
+				for i, r := range v {
+					rows = append(rows, fmt.Sprintf("([%s], %s)", joinLeanStrings(r.Labels), leanString(bodies[i])))
+				}
+				fmt.Fprintf(&lean, "def %s : List (List String × String) := [%s]\n", id, strings.Join(rows, ", "))
+				facts[id] = bodies
 			case "src":
 				v := srcFact(fset, fd)
 				fmt.Fprintf(&lean, "def %s : String := %s\n", id, leanString(v))
@@ -527,6 +538,33 @@ func switchFact(fset *token.FileSet, fd *ast.FuncDecl) []switchRow {
 		rows = append(rows, row)
 	}
 	return rows
+}
+
+// c15CaseBodies: for the first switch statement, the printed statements of every clause
+func c15CaseBodies(fset *token.FileSet, fd *ast.FuncDecl) []string {
+	var sw *ast.SwitchStmt
+	ast.Inspect(fd.Body, func(n ast.Node) bool {
+		if sw != nil {
+			return false
+		}
+		if s, ok := n.(*ast.SwitchStmt); ok {
+			sw = s
+			return false
+		}
+		return true
+	})
+	var out []string
+	if sw == nil {
+		return out
+	}
+	for _, c := range sw.Body.List {
+		var parts []string
+		for _, st := range c.(*ast.CaseClause).Body {
+			parts = append(parts, exprString(fset, st))
+		}
+		out = append(out, strings.Join(parts, "; "))
+	}
+	return out
 }
 
 func srcFact(fset *token.FileSet, fd *ast.FuncDecl) string {
